@@ -350,7 +350,7 @@ class Cons(Component):
 class StageCL(Component):
   def construct(s, k):
     s.in_ = InPort(8); s.out = OutPort(8)
-    s.p = Prod(); s.c = Cons(k)
+    s.p = Prod(); s.c = Cons(k=k)
     s.p.in_ //= s.in_
     s.out //= s.c.out
     connect(s.p.send, s.c.recv)
@@ -434,9 +434,16 @@ def run_cl2_case(sh, case):
     if rng.random() < 0.4:
       setp = (rng.randrange(n), rng.randrange(1, 9))             # set_param on a list element that may be replaced later
       if rng.random() < 0.6: wild = rng.randrange(1, 9)          # ... after a wildcard default for all stages (the later, exact entry wins)
+    deep = None
+    if rng.random() < 0.35:
+      # parameters of a GRANDCHILD (the consumer inside a CL stage): a wildcard default for all stages, then an exact entry for one stage
+      deep = (rng.randrange(1, 9), rng.randrange(n), rng.randrange(1, 9))
     def params(t):
       if wild is not None: t.set_param(pre + "stage*.construct", k=wild)
       if setp: t.set_param(f"{pre}stage[{setp[0]}].construct", k=setp[1])
+      if deep:
+        t.set_param(pre + "stage*.c.construct", k=deep[0])
+        t.set_param(f"{pre}stage[{deep[1]}].c.construct", k=deep[2])
     topA = mk(kinds, ks, extra)
     params(topA)
     topA.elaborate()
@@ -463,7 +470,7 @@ def run_cl2_case(sh, case):
         final[i] = newk; ks[i] = newv
       else:
         extra[i] = [newk, newv]
-    W = lambda kind, **kw: sh.violation(kind, dict(kw, original=kinds, steps=steps, final=final, extra=extra, set_param=setp, wildcard=wild, nested=nested), case=("cl2", case))
+    W = lambda kind, **kw: sh.violation(kind, dict(kw, original=kinds, steps=steps, final=final, extra=extra, set_param=setp, wildcard=wild, deep=deep, nested=nested), case=("cl2", case))
     topB = mk(final, ks, extra)
     params(topB)
     topB.elaborate()
